@@ -57,7 +57,7 @@ type Script struct {
 var cRoute = vt.New("C09", "graph-routing")
 
 func genRoute(t *rapid.T) Script {
-	s := Script{Topo: topo.Gen(t, topo.GenOpts{Invalid: 25, Profiles: true, Routing: true, Names: true})}
+	s := Script{Topo: topo.Gen(t, topo.GenOpts{Invalid: 25, Profiles: true, Routing: true, Names: true, Repeats: true, Levels: true})}
 	plan := topo.Evaluate(s.Topo)
 	for range plan.Recv {
 		s.Emit = append(s.Emit, rapid.SampledFrom([]string{"fresh", "readonly", "reuse", "fresh", "readonly"}).Draw(t, "emit"))
@@ -108,6 +108,7 @@ func runRoute(s Script) (bool, string, *vt.Finding) {
 
 	cRoute.Class("class:"+plan.Class, fmt.Sprintf("pipelines:%d", len(tp.Pipelines)))
 	cRoute.Class(nameClasses(tp, plan.Class)...)
+	cRoute.Class(repeatClasses(tp, plan.Class)...)
 
 	// The collector validates the configuration object before it builds the service from that same object
 	// (otelcol: xconfmap.Validate, then service.New): do the same, a validation that rewrites what it
@@ -392,9 +393,10 @@ func runRoute(s Script) (bool, string, *vt.Finding) {
 		cRoute.Class("paths:<=5")
 	}
 	connOnlyR, connOnlyE, fanIn, fanOut, fwd := false, false, false, false, false
+	tpn := tp.Normalized() // a pipeline's lists as sets of ids
 	for _, c := range tp.Connectors {
 		ne, nr := 0, 0
-		for _, pl := range tp.Pipelines {
+		for _, pl := range tpn.Pipelines {
 			for _, e := range pl.Exporters {
 				if e == c.ID {
 					ne++
@@ -444,7 +446,7 @@ func runRoute(s Script) (bool, string, *vt.Finding) {
 				continue
 			}
 			n := 0
-			for _, pl := range tp.Pipelines {
+			for _, pl := range tpn.Pipelines {
 				if pl.Signal != ft[1] {
 					continue
 				}
@@ -492,6 +494,30 @@ func runRoute(s Script) (bool, string, *vt.Finding) {
 					break
 				}
 			}
+		}
+	}
+
+	// declared stability levels of what was instantiated (a level must never change routing or instantiation)
+	for _, k := range plan.Conn {
+		f := strings.SplitN(k, ":", 3)
+		ft := strings.SplitN(f[1], ">", 2)
+		for _, c := range tp.Connectors {
+			if c.ID == f[2] {
+				cRoute.Class("level:connector-instance/" + c.LevelOf(ft[0], ft[1]))
+			}
+		}
+	}
+	for _, k := range plan.Recv {
+		f := strings.SplitN(k, ":", 3)
+		cRoute.Class("level:receiver-instance/" + tp.LevelOf(topo.RecvType, f[1]))
+	}
+	for _, k := range plan.Exp {
+		f := strings.SplitN(k, ":", 3)
+		cRoute.Class("level:exporter-instance/" + tp.LevelOf(topo.ExpType, f[1]))
+	}
+	for _, pl := range tp.Pipelines {
+		for range pl.Processors {
+			cRoute.Class("level:processor-instance/" + tp.LevelOf(topo.ProcType, pl.Signal))
 		}
 	}
 
@@ -610,6 +636,55 @@ func nameClasses(tp topo.Topology, class string) []string {
 	for _, n := range byType {
 		if n > 1 {
 			set["connectors-of-one-type-in-use"] = true
+		}
+	}
+	var out []string
+	for k := range set {
+		out = append(out, k)
+	}
+	sort.Strings(out)
+	return out
+}
+
+// repeatClasses labels the lists that name an id more than once (cases; "/valid" when the configuration
+// is a valid one, i.e. the routing oracle runs on it).
+func repeatClasses(tp topo.Topology, class string) []string {
+	isConn := map[string]bool{}
+	for _, c := range tp.Connectors {
+		isConn[c.ID] = true
+	}
+	set := map[string]bool{}
+	add := func(l string) {
+		set[l] = true
+		if class == "valid" {
+			set[l+"/valid"] = true
+		}
+	}
+	for _, pl := range tp.Pipelines {
+		for side, l := range map[string][]string{"receivers": pl.Receivers, "exporters": pl.Exporters} {
+			cnt := map[string]int{}
+			for _, id := range l {
+				cnt[id]++
+			}
+			for id, n := range cnt {
+				if n < 2 {
+					continue
+				}
+				what := "receiver"
+				switch {
+				case isConn[id]:
+					what = "connector"
+				case side == "exporters":
+					what = "exporter"
+				}
+				add("repeated-id:" + what + "-in-" + side + "-list")
+				if n > 2 {
+					add("repeated-id:" + what + "-in-" + side + "-list/three-times")
+				}
+				if len(cnt) == 1 {
+					add("repeated-id:" + side + "-list-names-nothing-else")
+				}
+			}
 		}
 	}
 	var out []string
